@@ -8,6 +8,19 @@ oracle: yielded-path bookkeeping done independently from the op lists (reference
         multi-line yields, own offside reference parser), coverage / ownership evaluated per generator, union built
         by path insertion; for ACLs without %global and negated rows a fully independent rule matcher is used, else
         navigation through the rule tree uses annet's match_row_to_acl (what C06 checks).
+
+Case format: {"vendor": v, "gens": [{"name": class name, "acl": ACL text, "ops": [op, ...]}, ...]} with
+  op = ["y", text]                         yield text                (str; "\\n" inside = multi-line yield)
+     | ["t", [val, ...]]                   yield (val, ...)          (val = str | int | None | [val, ...] nested tuple)
+     | ["b", [val, ...], indent|None, ops] with self.block(*vals, indent=indent): ops
+     | ["bi", [val, ...], cond|None, ops]  with self.block_if(*vals, condition=cond): ops   (None = default condition)
+     | ["mb", [block, ...], ops]           with self.multiblock(*blocks): ops               (block = str | [val, ...])
+
+Reusable entry points (used by other property modules, e.g. C17):
+  run_old_new(device_model, generators, config_text=None, add_implicit=False, acl=True, exclusive=True)
+      -> OldNewResult of the real annet.gen._old_new_per_device for one stub CLI device
+  make_generator(name, vendor, acl_text, ops) -> synthetic PartialGenerator subclass interpreting an op list
+  StubDevice(hw_model), StubStorage()         the stubs run_old_new uses
 """
 import random
 import re
@@ -169,26 +182,73 @@ def raw_rules(text):
     return _conv_raw(syntax.parse_text(text, acl._PARAMS_SCHEME))
 
 
+StubStorage = _Storage
+StubDevice = _Device
+make_generator = _make_gen      # make_generator(name, vendor, acl_text, ops) -> PartialGenerator subclass
+
+
+def run_old_new(device_model, generators, config_text=None, add_implicit=False, acl=True, exclusive=True,
+                hostname="dev1"):
+    """Run the real `annet.gen._old_new_per_device` for one stub CLI device and return its `OldNewResult`
+    (`.old`, `.new`, `.err`, `.acl_rules`, `.partial_results`, `.implicit_rules`, ...).
+
+    device_model : hardware model string given to `HardwareView` (e.g. "Huawei", "Huawei CE6870", "Arista",
+                   "Huawei OptiXtrans", "Cisco Nexus"); it decides `device.hw.vendor`, the formatter and the
+                   implicit / ACL vendor.  `run_<vendor>` / `acl_<vendor>` of the generators are looked up by it.
+    generators   : list of `PartialGenerator` subclasses (instantiated here with the stub storage) and/or instances
+                   (their `.storage` is replaced by the stub storage if it has no `flush_perf`).  Synthetic classes
+                   can be built with `make_generator(name, vendor, acl_text, ops)` (ops: see module docstring / `_interp`).
+    config_text  : the device's current configuration text ("" or None = empty device: `old` is what
+                   `run_partial_initial` yields, i.e. empty except on Huawei CE); it is fed through `config="-"` /
+                   `stdin["config"]`, the code path of `ann gen --config -`.
+    add_implicit : `ctx.add_implicit` — complete `old` and `new` with `implicit.config(...)` before the ACLs.
+    acl          : False = `--no-acl` (no own-ACL check, no merged ACL, no exclusivity check).
+    exclusive    : False = `--no-acl-exclusive`.
+
+    Everything else is off: no acl_safe, no annotations, no filter ACL, no profiling, no Entire / JSON_FRAGMENT
+    generators, no RefGenerators.  Exceptions of the real code (`GeneratorError`, `AclNotExclusiveError`, ...)
+    propagate to the caller.  `setup_worker()` (connectors, logging off) is called first.
+    """
+    setup_worker()
+    from annet import gen as agen
+    dev = _Device(device_model)
+    dev.hostname = hostname
+    dev.fqdn = hostname + ".net"
+    gens = []
+    for g in generators:
+        if isinstance(g, type):
+            g = g(dev.storage)
+        elif not hasattr(getattr(g, "storage", None), "flush_perf"):
+            g.storage = dev.storage
+        gens.append(g)
+    args = types.SimpleNamespace(
+        fail_on_empty_config=False, no_acl=not acl, acl_safe=False, generators_context=None, profile=False,
+        no_acl_exclusive=not exclusive, required_packages_check=False, filter_acl=None, filter_ifaces=None,
+        filter_peers=None, filter_policies=None)
+    dg = agen.DeviceGenerators(partial={dev: gens}, ref={dev: []})
+    if config_text:
+        config, stdin = "-", {"config": config_text, "filter_acl": None}
+    else:
+        config, stdin = "empty", None
+    ctx = agen.OldNewDeviceContext(
+        config=config, args=args, downloaded_files={}, failed_files={}, running={}, failed_running={},
+        no_new=False, stdin=stdin, add_annotations=False, add_implicit=add_implicit, do_files_download=False,
+        gens=dg, fetched_packages={}, failed_packages={}, device_count=1, do_print_perf=False)
+    return agen._old_new_per_device(ctx, dev, None)
+
+
 def run_real(case):
-    from annet import gen as agen, patching
+    from annet import patching
     from annet.generators import GeneratorError
     from annet.generators.result import _combine_acl_text
+    from annet.annlib.netdev.views.hardware import HardwareView
     vendor = case["vendor"]
-    dev = _Device(VENDORS[vendor][0])
-    if dev.hw.vendor != vendor:
-        return {"err": "harness", "msg": "hardware stub resolves to %s" % dev.hw.vendor}
-    args = types.SimpleNamespace(
-        fail_on_empty_config=False, no_acl=False, acl_safe=False, generators_context=None, profile=False,
-        no_acl_exclusive=False, required_packages_check=False, filter_acl=None, filter_ifaces=None,
-        filter_peers=None, filter_policies=None)
-    gens = [_make_gen(g["name"], vendor, g["acl"], g["ops"])(dev.storage) for g in case["gens"]]
-    dg = agen.DeviceGenerators(partial={dev: gens}, ref={dev: []})
-    ctx = agen.OldNewDeviceContext(
-        config="empty", args=args, downloaded_files={}, failed_files={}, running={}, failed_running={},
-        no_new=False, stdin=None, add_annotations=False, add_implicit=False, do_files_download=False, gens=dg,
-        fetched_packages={}, failed_packages={}, device_count=1, do_print_perf=False)
+    model = VENDORS[vendor][0]
+    if HardwareView(model, None).vendor != vendor:
+        return {"err": "harness", "msg": "hardware stub resolves to %s" % HardwareView(model, None).vendor}
+    gens = [_make_gen(g["name"], vendor, g["acl"], g["ops"]) for g in case["gens"]]
     try:
-        r = agen._old_new_per_device(ctx, dev, None)
+        r = run_old_new(model, gens)
     except GeneratorError as e:
         c = e.__cause__
         cause = type(c).__name__
@@ -586,11 +646,12 @@ def _leading_blank_sites(ops):
         elif k == "bi":
             sub, m = _leading_blank_sites(op[3])
             n += m
-            out.append(["bi", op[1], op[2], sub])
+            toks = op[1] if any(t is None or t == "" for t in op[1]) else fix_header(op[1])
+            out.append(["bi", toks, op[2], sub])
         elif k == "mb":
             sub, m = _leading_blank_sites(op[2])
             n += m
-            out.append(["mb", op[1], sub])
+            out.append(["mb", [fix_header(b if isinstance(b, list) else [b]) for b in op[1]], sub])
     return out, n
 
 
@@ -774,12 +835,9 @@ def oracle(case, r):
     kind = case.get("kind", "run")
     if kind == "splitstrip":
         t = case["text"]
-        # multi-line: dedent, strip, split (by design); single line: the line itself, surrounding blanks not significant
+        # multi-line: dedent, strip, split; single line: the stripped line (fix e9aec0a)
         got = r.get("ok")
-        if "\n" in t:
-            good = got == textwrap.dedent(t).strip().split("\n")
-        else:
-            good = isinstance(got, list) and len(got) == 1 and got[0].strip() == t.strip()
+        good = got == (textwrap.dedent(t).strip().split("\n") if "\n" in t else [t.strip()])
         return [] if good else [dict(sig="split-and-strip", what="_split_and_strip(%r) = %r" % (t, r))]
     if kind == "split":
         return []
@@ -802,7 +860,8 @@ def oracle(case, r):
     vs = _cmp(case, r, exp)
     if not vs:
         return []
-    # F10a: is the deviation explained by single-line yields that start with a blank?
+    # F10a (fixed in e9aec0a, regression signature): is the deviation explained by single-line yields that start
+    # with a blank?
     n = 0
     gens2 = []
     for g in case["gens"]:
@@ -813,11 +872,16 @@ def oracle(case, r):
         case2 = dict(case, gens=gens2)
         r2 = run_real(case2)
         exp2 = expected(case2)
-        if exp2["kind"] != "ood" and not [v for v in _cmp(case2, r2, exp2) if v["sig"] in {x["sig"] for x in vs}]:
-            how = "re-parented under the previous line" if "ok" in r or r.get("cause") == "AclError" else "refused (%s)" % r.get("cause", r.get("err"))
-            return [dict(sig="single-line-yield-leading-blank",
-                         what="a single-line yield starting with a blank is not placed under its block path: %s "
-                              "(without the blank the property holds); first deviation: %s" % (how, vs[0]["what"]))]
+        if exp2["kind"] != "ood":
+            remaining = {v["sig"] for v in _cmp(case2, r2, exp2)}
+            vanished = [v for v in vs if v["sig"] not in remaining]
+            if vanished:
+                how = "re-parented under the previous line" if "ok" in r or r.get("cause") == "AclError" \
+                    else "refused (%s)" % r.get("cause", r.get("err"))
+                return [v for v in vs if v["sig"] in remaining] + [dict(
+                    sig="single-line-yield-leading-blank",
+                    what="a single-line yield starting with a blank is not placed under its block path: %s "
+                         "(without the blank the property holds); first deviation: %s" % (how, vanished[0]["what"]))]
     return vs
 
 
@@ -1031,10 +1095,10 @@ def gen_case(rng):
     ngen = rng.choice([1, 2, 2, 3, 3, 4])
     profile = rng.random()
     # most cases are 'clean' (no noise that triggers recorded findings) so that every clause is exercised
-    noise = dict(lead=0.0, trail=0.02, double=0.02, none=0.0, blankline=0.05, comment=0.03)
+    noise = dict(lead=0.03, trail=0.02, double=0.02, none=0.0, blankline=0.05, comment=0.03)
     opts = dict(drop=0.04, cd=0.35, prio=0.0, **{"global": 0.0})
     if profile < 0.12:
-        noise["lead"] = 0.08
+        noise["lead"] = 0.15
     elif profile < 0.2:
         noise["none"] = 0.04
     if 0.2 <= profile < 0.45:
